@@ -201,6 +201,7 @@ static void run_case(int ntok, char **tok)
  *                                          part iterator (begin/end/++/ * /line()/points()) are read back
  *   R <dim> | <dim> ...                    like P (one frame), then linepart::array::set(-1) on the parts and the records again
  *   A <n> <dim> | <dim> ...                apply_data() without part records: n points, every point visible
+ *   D <raw.usr.cut.trim> ... : <dim> | ..  apply_data() WITH the given part records (exact-size copy) on sum(usr) points
  *   W <v> ...                              linepart::set_cut / set_trim / cut() / trim() (values exact in float)
  *
  *   <dim> =  <min> <max> <v> ...   a store of doubles and the visible range of that dimension ("N N" = none)
@@ -368,6 +369,42 @@ static void apply_data_case(int ntok, char **tok)
 	free(dest);
 	for (size_t d = 0; d < st.size(); d++) poison_tail(st[d], false);
 }
+/* apply_data() with part records given by the case (a public function of values.h: the records need not come from
+ * polyline::set on the same stores).  Records and points sit in exact-size heap blocks, the stores are poisoned
+ * behind their data: a read behind a store or a write behind the points is a crash. */
+static void apply_parts_case(int ntok, char **tok)
+{
+	std::vector<linepart> tmp;
+	int i = 2;
+	long n = 0;
+	for (; i < ntok && strcmp(tok[i], ":"); i++) {
+		unsigned r = 0, u = 0, c = 0, t = 0;
+		if (sscanf(tok[i], "%u.%u.%u.%u", &r, &u, &c, &t) != 4) return;
+		linepart p;
+		p.raw = r; p.usr = u; p._cut = c; p._trim = t;
+		tmp.push_back(p);
+		n += u;
+	}
+	if (i < ntok) i++;
+	std::vector<dimspec> dims;
+	std::vector<value_store> st;
+	parse_dims(ntok, tok, i, dims);
+	fill_stores(dims, st);
+	layout::graph::transform3 tr;
+	setup_transform(tr, dims);
+	linepart *lp = (linepart *) malloc(tmp.size() ? tmp.size() * sizeof(*lp) : 1);
+	for (size_t k = 0; k < tmp.size(); k++) lp[k] = tmp[k];
+	point<double> *dest = (point<double> *) malloc(n ? n * sizeof(*dest) : 1);
+	for (long k = 0; k < n; k++) dest[k] = point<double>(0, 0);
+	int proc = apply_data(dest, span<const linepart>(lp, tmp.size()), tr, span<const value_store>(st.data(), st.size()));
+	vh_tok("proc=%d", proc);
+	std::string s;
+	add_points(s, (const polyline::point *) dest, n);
+	vh_tok("%s", s.c_str());
+	free(dest);
+	free(lp);
+	for (size_t d = 0; d < st.size(); d++) poison_tail(st[d], false);
+}
 static void wrapper_case(int ntok, char **tok)
 {
 	vals d = read_values(ntok, tok, 2);
@@ -386,6 +423,7 @@ static void run_case_all(int ntok, char **tok)
 	if (!strcmp(tok[1], "P")) polyline_case(ntok, tok, false);
 	else if (!strcmp(tok[1], "R")) polyline_case(ntok, tok, true);
 	else if (!strcmp(tok[1], "A")) apply_data_case(ntok, tok);
+	else if (!strcmp(tok[1], "D")) apply_parts_case(ntok, tok);
 	else if (!strcmp(tok[1], "W")) wrapper_case(ntok, tok);
 	else run_case(ntok, tok);
 }
